@@ -46,9 +46,12 @@ def _num_eq(a, b):
     if a == b:
         return True
     if isinstance(a, float) or isinstance(b, float):
-        if math.isinf(a) or math.isinf(b):
+        if (isinstance(a, float) and math.isinf(a)) or (isinstance(b, float) and math.isinf(b)):
             return False
-        return abs(a - b) <= 1e-12 * max(abs(a), abs(b))
+        try:
+            return abs(a - b) <= 1e-12 * max(abs(a), abs(b))
+        except OverflowError:  # an integer beyond the float range next to a float: not the same number
+            return False
     return False
 
 
